@@ -252,9 +252,32 @@ def project_packet(packet):
 
 
 # --------------------------------------------------------------------------- independent reader
+def osc10_first_address(el):
+    """address of the first message inside a bundle element, depth first (None if it is not OSC)"""
+    if el.startswith(b'#bundle\0'):
+        if len(el) < 16:
+            return None
+        i = 16
+        while i + 4 <= len(el):
+            n = struct.unpack('>i', el[i:i + 4])[0]
+            i += 4
+            if n < 0 or i + n > len(el):
+                return None
+            a = osc10_first_address(el[i:i + n])
+            if a is not None:
+                return a
+            i += n
+        return None
+    z = el.find(b'\0')
+    if z < 0 or not el.startswith(b'/'):
+        return None
+    return el[:z].decode('latin-1')
+
+
 def osc10_elements(dgram):
-    """Independent of sc3: the addresses of the messages directly inside a bundle datagram, in order.
-    Returns None if the datagram is not a bundle of messages."""
+    """Independent of sc3: for every element directly inside a bundle datagram, in order, the address of the
+    message it is (or, for a nested bundle, of the first message inside it; '' for an empty nested bundle).
+    Returns None if the datagram is not a well-formed bundle."""
     if not dgram.startswith(b'#bundle\0') or len(dgram) < 16:
         return None
     i, out = 16, []
@@ -266,10 +289,12 @@ def osc10_elements(dgram):
         if n < 0 or i + n > len(dgram):
             return None
         el = dgram[i:i + n]
-        z = el.find(b'\0')
-        if z < 0:
-            return None
-        out.append(el[:z].decode('latin-1'))
+        a = osc10_first_address(el)
+        if a is None:
+            if not el.startswith(b'#bundle\0'):
+                return None
+            a = ''
+        out.append(a)
         i += n
     return out
 
